@@ -183,6 +183,7 @@ def run(ctx, model):
         sess.log()
         case = {"seed": ctx.seed, "index": i, "project": lx.project_summary(p), "large_connection": large,
                 "micro800": p.get("micro800", False), "writes": [(t, repr(v)[:80]) for t, v, _ in reqs]}
+        n_frames0 = len(sess.sock.frames)
         try:
             res = core.with_budget(120, sess.d.write, *[(t, v) for t, v, _ in reqs])
         except BaseException as e:  # noqa
@@ -248,6 +249,33 @@ def run(ctx, model):
                         not (addressed_range(d)[1] + addressed_range(d)[2] <= off or off + ln <= addressed_range(d)[1]))
             if cnt > max(1, nreqs):
                 ctx.violation("write-applied-more-than-once", dict(case, symbol=inst), "%d executions of the same write for %d requests" % (cnt, nreqs))
+        # exactly once, at bit level: every Read-Modify-Write service the driver sent in this call touches some bits
+        # (OR-mask bits set, AND-mask bits cleared); a bit of a path may be touched at most as often as requests of
+        # the call name that bit number
+        touched = {}
+        for f in sess.sock.frames[n_frames0:]:
+            if f[:2] != b"\x70\x00" or len(f) < 48 or f[46] != 0x4E:
+                continue
+            words = f[47]
+            path = f[48:48 + 2 * words]
+            d = f[48 + 2 * words:]
+            if len(d) < 2:
+                continue
+            size = int.from_bytes(d[:2], "little")
+            orm = int.from_bytes(d[2:2 + size], "little")
+            andm = int.from_bytes(d[2 + size:2 + 2 * size], "little")
+            for b in range(8 * size):
+                if orm >> b & 1 or not andm >> b & 1:
+                    touched[(path, b)] = touched.get((path, b), 0) + 1
+        named = {}
+        for (t, v, d) in reqs:
+            if d[0] == "bit":
+                named[d[2] % 32 if "DWORD" in repr(d) else d[2]] = named.get(d[2] % 32 if "DWORD" in repr(d) else d[2], 0) + 1
+        for (path, b), cnt in touched.items():
+            if cnt > max(1, named.get(b, 0)):
+                ctx.violation("bit-write-applied-more-than-once", dict(case, path=path.hex(), bit=b),
+                              "bit %d of path %s was written by %d Read-Modify-Write services, %d request(s) name that bit" % (b, path.hex(), cnt, named.get(b, 0)))
+                break
         if i < 3:
             ctx.sample({"writes": case["writes"][:5], "results": [lx.tag_summary(t) for t in res[:5]]})
         sess.close()
